@@ -506,6 +506,11 @@ func (t *Template) itemList(terminatedBy ...NodeType) (list *ListNode, next Node
 				return list, n
 			}
 		}
+		switch n.Type() {
+		case nodeEnd, nodeElse, nodeContent:
+			// a clause marker that does not belong to the enclosing construct
+			t.errorf("unexpected %s", n)
+		}
 		list.append(n)
 	}
 	t.errorf("unexpected EOF")
